@@ -643,6 +643,16 @@ where
             .determine_shard(self.map.hasher().hash_one(string) as usize)
     }
 
+    /// Whether some thread currently holds a lock on shard `shard` of the string-to-key map
+    #[cfg(lasso_verif)]
+    #[doc(hidden)]
+    pub fn verif_shard_locked(&self, shard: usize) -> bool {
+        self.map
+            .shards()
+            .get(shard)
+            .map_or(false, |shard| shard.try_write().is_none())
+    }
+
     /// Set the `ThreadedRodeo`'s maximum memory usage while in-flight
     ///
     /// Note that setting the maximum memory usage to below the currently allocated
